@@ -1,0 +1,20 @@
+//go:build verif
+
+package value
+
+import "github.com/mithrandie/csvq/lib/verifhook"
+
+// poison overwrites a discarded object with a sentinel so that any later read
+// through a stale reference is visible to the verification harness.
+func poison(p Primary) {
+	switch v := p.(type) {
+	case *String:
+		v.literal = verifhook.PoisonString
+	case *Integer:
+		v.value = verifhook.PoisonInt
+	case *Float:
+		v.value = verifhook.PoisonFloat
+	case *Datetime:
+		v.value = verifhook.PoisonTime
+	}
+}
